@@ -479,7 +479,14 @@ def c06 (ms : M) (e : Event) : List String :=
                | none => (fget f dst).isNone)
              && fget f 49 == some cfg.sender && fget f 56 == some cfg.target
           then [] else ["C06.reject_routing_not_reversed"]
-    gate ++ react ++ badAccept ++ validation ++ shape
+    -- a Reject written before this message is counted answers THIS message: it quotes this message's own number
+    -- (nothing is kept in the stash under that number, the Reject is not a replay, the queue held nothing older)
+    let refSeq : List String := (wires (dropOldWires prev.q own)).flatMap fun (kk, _, f) =>
+      if !(kk == "3" || kk == "j") || fget f 43 == some "Y" || !prev.stash.isEmpty || prev.q != 0 then [] else
+      match v.seq, fget f 45 with
+      | some n, some r => if r == toString n then [] else ["C06.reject_refseq_wrong"]
+      | _, _ => []
+    gate ++ react ++ badAccept ++ validation ++ shape ++ refSeq
 
 /-! ## C07: resets only when agreed; forward-only SequenceReset; reset Logon numbering -/
 
@@ -741,7 +748,9 @@ def c03 (ms : M) (e : Event) : List String :=
                 | some (kk, p) => if kk == k && (p.isNone || fget f 9000 == p) then [] else ["C03.replayed_message_differs"]
                 | none => ["C03.replayed_message_not_stored"]
               let b2 := if (fget f 122).isNone then ["C03.replay_without_origsendingtime"] else []
-              { cursor := n + 1, bad := w.bad ++ b0 ++ b1 ++ b2 }) { cursor := b, bad := [] }
+              -- (the harness compares tag 122 of the replay with tag 52 of the message as it was handed to the store: "!" = differs)
+              let b3 := if fget f 122 == some "!" then ["C03.origsendingtime_not_original"] else []
+              { cursor := n + 1, bad := w.bad ++ b0 ++ b1 ++ b2 ++ b3 }) { cursor := b, bad := [] }
         w.bad ++ (if w.cursor != eff + 1 then ["C03.cover_ends_wrong{persist=" ++ persistTag ++ "}"] else [])
     | _, _ => []
   | _, _ => []
